@@ -48,4 +48,5 @@ def run(ctx):
     _run_rules(ctx)
     from .. import boundaries
     boundaries.check(ctx, 'C10.RB', 'C10')
+    boundaries.check_writes(ctx, 'C10.RW', 'C10')
     boundaries.check_calls(ctx, 'C10.RC', 'C10')
